@@ -203,6 +203,10 @@ def admits(res: V, t: V) -> bool:
     return False
 
 
+CATALOGUED = ("is_any", "is_generic", "is_union", "is_generic_of", "is_list", "is_typed_dict", "is_anonymous_typed_dict", "name_of_generic", "qualname_of_generic",
+              "types_equal", "is_forward_ref", "make_forward_ref", "repr_forward_ref", "__are_typed_dict_types_equal")
+
+
 class RewriterScenario:
     """Interprets one method of a shipped rewriter class on abstract types."""
 
@@ -222,6 +226,10 @@ class RewriterScenario:
         # private module-level helpers of typing.py (a piece extracted from a rewriter method) are interpreted with it
         for f in repo.module(TY).functions.values():
             if f.cls is None and f.qualname.startswith("_"):
+                inline.add(f.fq)
+        # helpers of compat.py other than the catalogued predicates are interpreted, too
+        for f in repo.module("monkeytype.compat").functions.values():
+            if f.cls is None and f.qualname not in CATALOGUED:
                 inline.add(f.fq)
         self.ri = RepoInterp(repo, fi, inline=inline, call_hook=self.call_hook, may_fork=(), heap=True, max_depth=16)
         self.ri.self_class = self.ci
@@ -361,6 +369,15 @@ class RewriterScenario:
             if isinstance(v, U) and len(args) > 2:
                 return args[2]
             return v
+        if d == "hasattr" and len(args) == 2 and isinstance(args[1], K) and isinstance(args[1].v, str):
+            if isinstance(args[0], K):
+                return K(hasattr(args[0].v, args[1].v))  # a plain Python value ((), Ellipsis, a string): the platform answers
+            before = st.pending
+            v_h = self.on_attr(args[0], args[1].v, call, st)
+            if st.pending == "AttributeError" and before is None:
+                st.pending = None
+                return K(False)
+            return K(True) if v_h is not None and not isinstance(v_h, U) else None
         if d == "repr" and len(args) == 1:
             return K(show(args[0]))
         if d == "len" and len(args) == 1 and isinstance(args[0], K) and isinstance(args[0].v, tuple):
@@ -480,6 +497,7 @@ class DeepScenario(RewriterScenario):
         self.ci = repo.cls(TY, "TypeRewriter")
         self.attrs = {}
         inline = {f.fq for f in mod.functions.values()}
+        inline |= {f.fq for f in repo.module("monkeytype.compat").functions.values() if f.cls is None and f.qualname not in CATALOGUED}
         self.ri = RepoInterp(repo, fi, inline=inline, call_hook=self.call_hook, may_fork=(), heap=True, max_depth=48)
         self.ri.construct_instances = True
         self.ri.dispatch_instances = True
@@ -586,6 +604,11 @@ def deep_inputs() -> List[V]:
         g("List", union(g("Iterator", ANY), i)), g("Tuple"), g("List", g("Tuple")), g("Dict", STR, union(g("Tuple"), g("Tuple", i))),
         g("Type", BASE), g("List", union(g("Type", BASE), g("Type", L1))), S("mod:typing.Callable"), g("List", union(S("mod:typing.Callable"), i)),
         g("DefaultDict", STR, union(LA, LI)), g("DefaultDict", STR, union(g("DefaultDict", ANY, ANY), g("DefaultDict", STR, INT))),
+        g("Tuple", union(LA, LI), ELL), g("List", g("Tuple", i, ELL)), union(g("Tuple", union(L1, L2), ELL), i), g("Dict", STR, g("Tuple", g("Generator", i, n_, n_), ELL)),
+        # unions whose members become EQUAL once their inner unions are rewritten (typing then collapses the outer union into its one member)
+        union(g("Set", BASE), g("Set", union(BASE, L1))), union(g("List", MID), g("List", union(L1, L2))), union(g("Tuple", BASE), g("Tuple", union(L1, OTH))),
+        union(g("Dict", STR, LI), g("Dict", STR, union(LA, LI))), union(g("List", g("Iterator", i)), g("List", g("Generator", i, n_, n_))),
+        g("List", union(g("Set", BASE), g("Set", union(BASE, L1)))),
         # generated TypedDicts: as members of a raw union (a generator's yields), as containers of unions, inside containers
         g("Iterator", union(DAA, anon_td({"a": i}))), union(anon_td({"a": i}), DAA), union(DAA, anon_td({}, {"b": s_}), i),
         anon_td({"a": union(LA, LI)}), anon_td({"a": union(DSI, DSS)}, {"b": union(SA, SI)}), g("List", anon_td({"a": union(i, s_)}, {"b": LA})),
